@@ -25,6 +25,18 @@ CHECKS = {
  "C17": ("mc-hist", "explicit-state BFS over real World histories (alphabet E1), peak-bound invariant",
          "Same exhaustive state graph as C01; at every creation (and for a tail probe that drains the free list) the returned index must be below the running peak of not-yet-dead entities.",
          "DESIGN.md §4 C17, §5"),
+ "C04": ("mc-store", "explicit-state BFS over single-storage histories on the real Storage API, map reference model",
+         "For each of the 18 storage kinds (6 base kinds, both change-tracking wrappers over each) and each index layout (dense, word/layer-boundary straddling, far apart) the complete reachable state graph (membership x hidden dense tables x slice lengths) under insert/overwrite/get_mut/remove/entry API/get_mut_or_default/drain (full and partial)/clear/mutable joins is explored to its fixed point; every return value, lookup, mask, count, join and slice view is compared with a plain map after every transition.",
+         "DESIGN.md §4 C04"),
+ "C08": ("mc-store", "explicit-state BFS over single-storage histories with an ownership ledger on every component value",
+         "Same exploration as C04 plus entity deletion (immediate, deferred), lazy insertion (applied, skipped, still queued at teardown) and builder insertion; every component value carries a ledger id; after every transition and after the world is dropped: no value destroyed twice, none returned after destruction, every observed value currently owned by the storage, none leaked (zero-sized kind: construction/destruction counts balance).",
+         "DESIGN.md §4 C08"),
+ "C12": ("mc-store", "explicit-state BFS over tracked-storage histories, event-class oracle per operation",
+         "For both wrappers over each inner kind: complete state graph (to fixed point) over the C04 alphabet without clear, plus entity deletion, maintain, mutable/lending/maybe/restricted joins with every subset of items written, other-entity mutable lookups, read-only accesses, un-dereferenced mutable access and the emission switch; after every operation the emitted Inserted/Removed sequence must equal the model's exactly, Modified must appear for every mutably accessed component and for none other, nothing while emission is off, and replaying the events reproduces the mask.",
+         "DESIGN.md §4 C12"),
+ "C19": ("mc-store", "fault enumeration: every destructor call of the last operation and of world teardown panics once, over a BFS of histories",
+         "For every history to depth 3/4 over insert/overwrite/remove/entry removal/drain/clear/entity deletion (single, batch, deferred+maintain)/lazy overwrite/builder, for every storage kind: one extra execution per destructor invocation inside the last operation or the teardown, with that invocation panicking; after catch_unwind the ledger must show no second destruction, no observation may return a destroyed value, follow-up operations on untouched entities and the second storage must behave as the model says, and teardown must not panic again.",
+         "DESIGN.md §4 C19"),
 }
 
 NOTE = "Bounded exhaustive exploration of the real implementation (no separate model to drift); trusted: hibitset, shred, shrev, crossbeam-queue, rayon, serde as dependencies; bounds are stated in the evidence file."
@@ -58,6 +70,7 @@ def main():
         },
         "engines": [
             {"name": "mc-hist", "path": "/verif/mc/src/hist.rs", "serves_properties": ["C01","C02","C03","C05","C09","C17"], "kind_free_text": "explicit-state BFS; transitions replay the real World API"},
+            {"name": "mc-store", "path": "/verif/mc/src/store.rs", "serves_properties": ["C04","C08","C12","C19"], "kind_free_text": "explicit-state BFS over storage histories; ledger tokens; destructor-panic injection"},
         ],
         "checks": checks,
         "not_applicable": na,
